@@ -72,18 +72,19 @@ func (c *countingRA) Seek(off int64, whence int) (int64, error) {
 	return off, nil
 }
 
-// readBudget is the number of ReadAt calls one ChunkReader method may make: two
-// per node load, and (Props/C15 resolve_terminates) fewer loads than there are
-// offsets at which a 32-byte node is readable.
-func readBudget(dataLen int, claimed int64) int {
-	n := int64(dataLen)
-	if claimed < n {
-		n = claimed
+// readBudget is the number of ReadAt calls one ChunkReader method may make.
+// Props/C15 resolve_terminates: one descent makes fewer loadAndValidate calls (two
+// ReadAt calls each: the 4-byte header, then the node) than there are offsets in
+// the file that carry the three magic bytes with room for a 32-byte node before
+// CompressedSize (Lean: nodeStarts); plus the root load, and initialize's four reads.
+func readBudget(data []byte, claimed int64) int {
+	starts := 0
+	for c := 0; c+2 < len(data) && int64(c)+32 <= claimed; c++ {
+		if data[c] == 0x72 && data[c+1] == 0xC3 && data[c+2] == 0x63 {
+			starts++
+		}
 	}
-	if n < 0 {
-		n = 0
-	}
-	return int(2*n + 16)
+	return 2*starts + 8
 }
 
 // ---- canonical outputs ----
@@ -162,7 +163,7 @@ func runReaderCase(idx int, rng *hlib.Rand, h hostile, thorough bool) *caseOut {
 	}
 	label := fmt.Sprintf("%d:%s", idx, h.kind)
 	cra := &countingRA{data: h.data}
-	budget := readBudget(len(h.data), h.claimed)
+	budget := readBudget(h.data, h.claimed)
 	r := &rac.ChunkReader{ReadSeeker: cra, CompressedSize: h.claimed}
 
 	sticky := "" // error class that every later call must repeat
@@ -183,7 +184,7 @@ func runReaderCase(idx int, rng *hlib.Rand, h hostile, thorough bool) *caseOut {
 		case "panic":
 			o.fail("panic:"+opName, "run-time panic ("+msg+") in "+opName)
 		case "spin":
-			o.fail("unbounded-work:"+opName, fmt.Sprintf("%s made more than %d reads of a %d-byte file (claimed size %d): work is not bounded by the file", opName, budget, len(h.data), h.claimed))
+			o.fail("unbounded-work:"+opName, fmt.Sprintf("%s made more than %d reads of a %d-byte file (claimed size %d) with %d possible node offsets: work is not bounded by the file", opName, budget, len(h.data), h.claimed, (budget-8)/2))
 		}
 		if strings.HasPrefix(out, "err ") {
 			w := out[4:]
